@@ -160,6 +160,14 @@ class App(object):
             return None
         if kind == 'abandon':
             return ('abandon', op.get('how', 'break'))
+        if kind == 'release_old':
+            # finalise the generators of earlier, abandoned connections now
+            olds = getattr(self, 'olds', None) or []
+            while len(olds) > 1:
+                g = olds.pop(0)
+                g.close()
+                self.world.probe('old_generator_released_late')
+            return None
         rec = CallRec()
         rec.seq = w.next_seq()
         rec.t = w.now
@@ -500,10 +508,21 @@ def run(scen):
                 mech = op.get('how', 'break')
     n_connects = scen.get('n_connects', 1) if persist_cfg is None else 1
     held = [None]       # `events = ws.connect(...)` variable of the consumer
+    olds = []           # generators kept by the consumer (mech 'hold')
+    app.olds = olds
     for i in range(n_connects):
         if i:
             trace.events.append(_sep(w, len(trace.events)))
-        if mech == 'rebind':
+        if mech == 'hold':
+            # the consumer keeps every abandoned generator (a list of old
+            # `events` objects, a traceback, a debugger ...) and lets go of
+            # them later: application op 'release_old', or the end of the run
+            def make_and_keep():
+                new = make_gen()
+                olds.append(new)
+                return new
+            _iterate_rebind(trace, make_and_keep, app, max_events)
+        elif mech == 'rebind':
             # events = ws.connect(...): the new generator exists before the
             # old (abandoned, still suspended) one is released
             def make_and_rebind():
@@ -517,7 +536,8 @@ def run(scen):
         if trace.hang or trace.escaped:
             break
     held[0] = None
-    if mech == 'rebind' and scen.get('observe_release'):
+    del olds[:]
+    if mech in ('rebind', 'hold') and scen.get('observe_release'):
         observe_release(trace)
     return trace
 
